@@ -4,6 +4,7 @@ CONSTANTS
   BigNs = {170, 171, 200, 400}
   BigSamples = {3, 40, 160}
   HugeNs = {1200}
+  WithSpecials = TRUE
 INVARIANTS
   SelfCheck
   Emit
